@@ -29,6 +29,7 @@ type VerifSt struct {
 	Last     uint64 `json:"li"`
 	LastTerm uint64 `json:"lt"`
 	Prev     uint64 `json:"p"`  // log.PrevIndex
+	LogLast  uint64 `json:"ll"` // log.LastIndex
 	Snap     uint64 `json:"si"` // snapshot index
 	SnapTerm uint64 `json:"st"`
 	CfgL     uint64 `json:"cl"` // latest config index
@@ -140,7 +141,7 @@ func verifState(r *Raft) *VerifSt {
 	s := &VerifSt{
 		Term: r.term, Vote: r.votedFor, State: string(rune(r.state)), Leader: r.leader,
 		Commit: r.commitIndex, Last: r.lastLogIndex, LastTerm: r.lastLogTerm,
-		Prev: r.log.PrevIndex(), Snap: si, SnapTerm: st,
+		Prev: r.log.PrevIndex(), LogLast: r.log.LastIndex(), Snap: si, SnapTerm: st,
 		CfgL: r.configs.Latest.Index, CfgC: r.configs.Committed.Index,
 		SnapBusy: r.snapTakenCh != nil,
 	}
@@ -155,7 +156,7 @@ func verifStorageState(s *storage) *VerifSt {
 	si, st := s.snaps.latest()
 	return &VerifSt{
 		Term: s.term, Vote: s.votedFor, Last: s.lastLogIndex, LastTerm: s.lastLogTerm,
-		Prev: s.log.PrevIndex(), Snap: si, SnapTerm: st,
+		Prev: s.log.PrevIndex(), LogLast: s.log.LastIndex(), Snap: si, SnapTerm: st,
 		CfgL: s.configs.Latest.Index, CfgC: s.configs.Committed.Index,
 	}
 }
